@@ -21,6 +21,9 @@ type scen struct {
 	callers   [][]string // per caller thread: source ids of its arrivals, in order
 	maint     int        // concurrent Maintenance calls
 	bound     int
+	sameName  bool     // every source id carries the same source name (two files with one name): they share the ban metric series
+	pre       []string // arrivals before the concurrent phase
+	preMaint  int      // maintenance rounds before the concurrent phase
 }
 
 type obs struct {
@@ -39,13 +42,25 @@ func body(sc scen) {
 	a := antispam.NewAntispammer(&antispam.Options{MaintenanceInterval: time.Second, Threshold: sc.threshold, UnbanIterations: unbanIterations,
 		Logger: vplug.FatalLogger(), MetricsController: metric.NewCtl("verif", prometheus.NewRegistry(), 0, 0)})
 	t0 := time.Unix(1700000000, 0)
+	name := func(src string) string {
+		if sc.sameName {
+			return "n"
+		}
+		return "name-" + src
+	}
+	for _, src := range sc.pre {
+		a.IsSpam(src, name(src), false, []byte(`{"k":1}`), t0, nil)
+	}
+	for i := 0; i < sc.preMaint; i++ {
+		a.Maintenance()
+	}
 	o.spam = make([][]bool, len(sc.callers))
 	for ci, list := range sc.callers {
 		ci, list := ci, list
 		vsched.GoNamed(fmt.Sprintf("caller%d", ci), func() {
 			for _, src := range list {
 				o.arrivals[src]++
-				r := a.IsSpam(src, "name-"+src, false, []byte(`{"k":1}`), t0, nil)
+				r := a.IsSpam(src, name(src), false, []byte(`{"k":1}`), t0, nil)
 				o.spam[ci] = append(o.spam[ci], r)
 			}
 			o.done++
@@ -138,6 +153,9 @@ func scenarios(thorough bool) []scen {
 		{name: "t2-two-sources", threshold: 2, callers: [][]string{{"1", "2"}, {"2", "1"}}, maint: 1, bound: b},
 		{name: "t1-new-sources-race", threshold: 1, callers: [][]string{{"1"}, {"1"}, {"2"}}, maint: 0, bound: b},
 		{name: "disabled", threshold: -1, callers: [][]string{{"1", "1"}, {"1", "1"}}, maint: 1, bound: 1},
+		// two source ids with one source name: the first has gone quiet (its counter is 0, the next maintenance deletes it and
+		// the ban metric series of the name) while the second reaches its threshold and increments that very series
+		{name: "t2-same-name-delete-vs-ban", threshold: 2, sameName: true, pre: []string{"1"}, preMaint: 1, callers: [][]string{{"2", "2"}}, maint: 1, bound: b},
 		{name: "t2-two-maintenances", threshold: 2, callers: [][]string{{"1", "1", "1"}}, maint: 2, bound: b},
 	}
 }
